@@ -579,6 +579,8 @@ def oracle_c12(cid, impl, m):
     input with start not after end, 1 <= line(start) <= line(end) <= rows+1; REST and gRPC endpoints agree;
     lexer/parser steps linear (model counters, tied by the correspondence); type-check steps linear
     (violated: known finding)."""
+    if impl.get("hang") == "1":
+        return ("c12-hang", "Parse / the lexer did not return within the watchdog time")
     if "toks" in m:                       # lex op
         return True if impl.get("panic") == "0" else ("c12-panic", "the lexer panicked")
     if "nerr" not in m:
@@ -621,6 +623,37 @@ def oracle_c06_engine(cid, impl, m):
     if impl.get("res", "").startswith("network-leak"):
         return ("c06-leak", "listing network A returned rows that were written to network B only: " + impl.get("x_detail", ""))
     return oracle_c01(cid, impl, m)
+
+
+def oracle_c11_converse(cid, impl, m):
+    """C11, converse: an accepted document in which ONE reference (type namespace; T or R of SubjectSet<T,R> in the
+    direct / (…|…)[] / Array<…> positions; relation of includes; name of this.permits.X(ctx); traversed relation and
+    target of traverse in both spellings) is replaced by an undeclared name is rejected, with an error at the token
+    the model's TypeCheck.blame names (C11_tc_rejects_at: the replaced token; for a traverse target the traversed
+    relation's token, which is what the deferred check keeps). Counterparts: a traverse target declared only on
+    the traversed type is accepted, one declared only on the enclosing class is rejected."""
+    if "mustreject" not in m:
+        return None
+    if impl.get("hang") == "1" or impl.get("panic") == "1" or "nerr" not in impl:
+        return ("c11-no-answer", "Parse did not return (hang / panic) on a reference-mutated document")
+    nerr = int(impl["nerr"])
+    kind = impl.get("x_kind", "?")
+    if m.get("mustaccept") == "1":
+        if nerr > 0:
+            return ("c11-valid-rejected", f"{kind}: a traverse target declared on the traversed type is rejected: {impl.get('errs')}")
+        return True
+    if nerr == 0:
+        return ("c11-undeclared-accepted", f"{kind}: the reference at {impl.get('mut')} is undeclared and the document is accepted")
+    blame = m.get("blame", "none")
+    if blame == "none":
+        return ("c11-error-position", f"{kind}: the model has no deferred check for the reference at {impl.get('mut')}")
+    entries = [e for e in impl.get("errs", "").split(";") if e]
+    at = [e.split("@", 1)[1] for e in entries if "@" in e]
+    if blame not in at:
+        if any(e.startswith("+") for e in entries):
+            return None                      # more than 32 errors, only the first 32 are spelled out
+        return ("c11-error-position", f"{kind}: no error points at {blame} (reference at {impl.get('mut')}); errors: {impl.get('errs')}")
+    return True
 
 
 ENGINE_RULE = ("configs from an OPL-shaped grammar (1-4 namespaces, related relations with plain and SubjectSet types, "
@@ -817,7 +850,7 @@ PROPS = {
                      "Keto.C11_parse_accepts_iff", "Keto.C11_parse_rejects", "Keto.C11_src_permission", "Keto.C11_src_type_union",
                      "Keto.C11_src_relation_decl", "Keto.C11_checks_cover", "Keto.C11_parse_typeOk", "Keto.C11_accepted_wellFormed",
                      "Keto.C11_forward_typed", "Keto.C11_forward_parse", "Keto.C11_plainTraversals_needed"],
-        "streams": [{"name": "engine-c11", "n": {"quick": 200, "thorough": 2500}, "oracle": oracle_c11, "thorough_seeds": 3}],
+        "streams": [{"name": "opl", "n": {"quick": 3000, "thorough": 20000}, "oracle": oracle_c11_converse, "thorough_seeds": 3, "env": {"VERIF_OPL_WATCHDOG_MS": "20000"}}, {"name": "engine-c11", "n": {"quick": 200, "thorough": 2500}, "oracle": oracle_c11, "thorough_seeds": 3}],
         "rule": ENGINE_RULE + "; stores conform to the declared types; judged = configuration accepted by the real OPL type checker, conforming store, query on a declared relation",
         "partial": "forward direction: for every byte string the parser model accepts, TypeOk holds; TypeOk + PlainTraversals (traversed relations have only plain-namespace types) + conforming store give WellFormed, hence no schema error for any check (C11_forward_parse); without PlainTraversals the statement is false (C11_plainTraversals_needed = known finding F-ttu-type); converse: every failing deferred check yields an error at the offending token, acceptance iff all checks hold (C11_tc_accepts_iff)",
         "assumptions": [],
@@ -883,7 +916,7 @@ PROPS["C10"] = {
                  "Keto.C10_precedence_counterexample", "Keto.C10_double_negation_counterexample",
                  "Keto.C10_array_comma_counterexample",
                  "Keto.Opl.spec_all", "Keto.Opl.parseAtom_spec", "Keto.Opl.related_decl", "Keto.TS.evalL2R_unmixed"],
-    "streams": [{"name": "opl", "n": {"quick": 4000, "thorough": 20000}, "oracle": oracle_c10, "thorough_seeds": 3}],
+    "streams": [{"name": "opl", "env": {"VERIF_OPL_WATCHDOG_MS": "20000"}, "n": {"quick": 4000, "thorough": 20000}, "oracle": oracle_c10, "thorough_seeds": 3}],
     "rule": OPL_RULE,
     "partial": "C10_expr_full (denote(parse(render e)) = evalTS e for every e) is not provable: the parser reads each "
                "parenthesis level strictly left to right (C10_expr_l2r, for ALL e); C10_expr_partial is the full statement "
@@ -896,7 +929,7 @@ PROPS["C12"] = {
     "theorems": ["Keto.C12_total", "Keto.C12_positions", "Keto.C12_lex_linear", "Keto.C12_parse_linear",
                  "Keto.C12_typecheck_exponential_counterexample", "Keto.Opl.lex_ok", "Keto.Opl.parseItems_ok",
                  "Keto.Opl.parseItems_steps"],
-    "streams": [{"name": "opl", "n": {"quick": 4000, "thorough": 20000}, "oracle": oracle_c12, "thorough_seeds": 3}],
+    "streams": [{"name": "opl", "env": {"VERIF_OPL_WATCHDOG_MS": "20000"}, "n": {"quick": 4000, "thorough": 20000}, "oracle": oracle_c12, "thorough_seeds": 3}],
     "rule": OPL_RULE,
     "partial": "linear time holds for lexer and parser (C12_lex_linear, C12_parse_linear) and is violated by the type check "
                "(C12_typecheck_exponential_counterexample: k^11 steps on 152+21k bytes)",
